@@ -17,6 +17,17 @@ import (
 
 const verifRoot = "/verif"
 
+// outRoot: where evidence and replay files go; a scratch directory when a
+// tree other than /repo is being checked (selftest, seeded changes).
+func outRoot() string {
+	if os.Getenv("GOVC_REPO") != "" {
+		d := envOr("GOVC_OUT", "/tmp/govc-alt")
+		os.MkdirAll(d, 0o755)
+		return d
+	}
+	return verifRoot
+}
+
 type knownFinding struct {
 	Status     string // open | fixed
 	Property   string
@@ -180,7 +191,7 @@ func cmdCheck(args []string) int {
 		}
 	}
 	t0 := time.Now()
-	evPath := filepath.Join(verifRoot, "evidence", prop+".json")
+	evPath := filepath.Join(outRoot(), "evidence", prop+".json")
 	os.MkdirAll(filepath.Dir(evPath), 0o755)
 	broken := func(msg string) int {
 		fmt.Printf("BROKEN check for %s: %s\n", prop, msg)
@@ -259,7 +270,7 @@ func cmdCheck(args []string) int {
 	// witness class excluded; it must then discharge.
 	var knownMatched []string
 	violations := 0
-	replayDir := filepath.Join(verifRoot, "replays", prop)
+	replayDir := filepath.Join(outRoot(), "replays", prop)
 	os.RemoveAll(replayDir)
 	nOb, nDis := 0, 0
 	byBackend := map[string]map[string]int64{}
